@@ -40,7 +40,7 @@ def stim_strategy(cfg, tier):
 
 
 def shards(tier, seed):
-    return core_shards(ID, tier, seed, ncfg=(3 if tier == "quick" else 24), ncases=(20 if tier == "quick" else 30))
+    return core_shards(ID, tier, seed, ncfg=(3 if tier == "quick" else 12), ncases=(20 if tier == "quick" else 30))
 
 
 def stats(run, col):
